@@ -9,20 +9,34 @@ import (
 	"verif/harness/h"
 )
 
-func c16Ext(r *h.Result, rng *h.Rng, tier string, ops, impl *[]string, cases *[]any) {
+func c16Ext(r *h.Result, rng *h.Rng, tier string, ops, impl *[]string, cases *[]any) error {
 	nDiff, nPM, nE2E := 400, 400, 40
 	switch tier {
 	case "thorough":
-		nDiff, nPM, nE2E = 12000, 12000, 1000
+		nDiff, nPM, nE2E = 8000, 8000, 800
 	case "search":
 		nDiff, nPM, nE2E = 3000, 3000, 300
 	}
 	r.Stream("diff: ProfService.RenderDiff (getTree ×2 over a scripted database → synchronizeNames, mergeNodes, computeFlameGraphDiff) vs Prof.renderDiff; oracle: both sides' values per node, every node of either tree once, contiguous layout and nesting on both sides, names table")
 	dr := rng.Fork()
-	c16DiffStream(r, dr, nDiff, ops, impl, cases)
+	for done := 0; done < nDiff; done += 2000 {
+		c16DiffStream(r, dr, min(2000, nDiff-done), done == 0, ops, impl, cases)
+		if err := c16Flush(r, ops, impl, cases); err != nil {
+			return err
+		}
+	}
 	r.Stream("pmerge: service.NewProfileMergeV2().Merge / Profile on decoded prof.Profile structs (shared and disjoint string tables, repeated strings, the empty string elsewhere or missing, stackless samples, locations without lines or mapping, numeric labels with units, damaged references) vs Prof.Pprof.mergeAll / result; ProfService.MergeProfiles on payloads stored by the real writer; oracle: no fault, no dangling reference, value sums, resolved samples = per-key sums of the resolved inputs, in any order")
 	pr := rng.Fork()
-	c16PMergeStream(r, pr, nPM, nE2E, ops, impl, cases)
+	for done := 0; done < nPM; done += 2000 {
+		e2e := 0
+		if done == 0 {
+			e2e = nE2E
+		}
+		c16PMergeStream(r, pr, min(2000, nPM-done), e2e, done == 0, ops, impl, cases)
+		if err := c16Flush(r, ops, impl, cases); err != nil {
+			return err
+		}
+	}
 	r.Stream("cap: a Go reference of the cut (capped merge = plain merge of the row prefix before the first row that would add node cap+1) vs Prof.mergeTrieCap at small caps, and vs the real MergeTrie at the real cap on 2 020 101 rows; the real name cap on 2 000 003 functions; oracle: what the cut does to conservation and nesting (recorded finding)")
 	cr := rng.Fork()
 	c16CapModelCases(r, cr, nDiff/2, ops, impl, cases)
@@ -30,6 +44,7 @@ func c16Ext(r *h.Result, rng *h.Rng, tier string, ops, impl *[]string, cases *[]
 	r.Stream("dup-types: profiles with two sample types of one type:unit name through the writer and the reader's first-by-name projection vs Prof.firstIdx; the merge oracle with the FIRST type's values")
 	tr := rng.Fork()
 	c16DupTypes(r, tr, nDiff/8, ops, impl, cases)
+	return nil
 }
 
 func c16ExtStream(op string) string {
